@@ -15,6 +15,10 @@ pub(crate) struct EventProcessor {
   actors: Vec<AppenderActor>,
   error_tx: Option<FibreMpscBoundedSender<InternalErrorReport>>,
   max_level: LevelFilter,
+  /// Every configured non-root logger as (name, additive), including loggers
+  /// that name no appender: the additivity gate is decided across all of them.
+  /// Empty when the processor was built without a logger list.
+  logger_gates: Vec<(String, bool)>,
 }
 
 impl EventProcessor {
@@ -31,7 +35,14 @@ impl EventProcessor {
       actors,
       error_tx,
       max_level,
+      logger_gates: Vec::new(),
     }
+  }
+
+  /// Supplies the full list of configured non-root loggers as (name, additive).
+  pub(crate) fn with_logger_gates(mut self, logger_gates: Vec<(String, bool)>) -> Self {
+    self.logger_gates = logger_gates;
+    self
   }
 
   /// The most permissive level any appender can accept. Used as the global
@@ -91,6 +102,15 @@ impl EventProcessor {
     for (prefix, (_, additive)) in rules.iter().flatten() {
       if winner.map_or(true, |(wp, _)| prefix.len() > wp.len()) {
         winner = Some((*prefix, *additive));
+      }
+    }
+    // A logger that names no appender appears in no per-appender rule map, yet
+    // it still decides additivity when it is the most specific match.
+    for (name, additive) in &self.logger_gates {
+      if crate::subscriber::actor::target_matches_prefix(metadata.target(), name)
+        && winner.map_or(true, |(wp, _)| name.len() > wp.len())
+      {
+        winner = Some((name.as_str(), *additive));
       }
     }
     let non_additive_gate: Option<&str> = match winner {
